@@ -6,7 +6,7 @@ import itertools
 
 from .. import objmodel as om
 from ..core import AnalysisError
-from ..loader import facts, literal, unparse
+from ..loader import facts, literal, return_text, unparse
 from ..peval import BUILTINS, FuncVal, Inst, Interp, Opaque, PyRaise, Undecided, World
 from ..props.c06 import finalize
 
@@ -176,12 +176,12 @@ def run(ctx):
         attrs = nf.class_attrs(cname)
         ok = "_IS_MOMENTUM" in attrs and unparse(attrs["_IS_MOMENTUM"]) == flag
         fn = nf.method(cname, "__setitem__")
-        body = unparse(fn.body[-1]) if fn is not None else None
+        body = return_text(fn)
         ok = ok and body == f"return _setitem(self, where, what, {flag})"
         ctx.ob("C14.numpy-item", f"{cname} flavor flag", ok, f"_IS_MOMENTUM={unparse(attrs['_IS_MOMENTUM']) if '_IS_MOMENTUM' in attrs else None}, __setitem__ body `{body}`", None, "src/vector/backends/numpy.py")
     gi = nf.method("GetItem", "__getitem__")
-    ctx.ob("C14.numpy-item", "GetItem.__getitem__", gi is not None and unparse(gi.body[-1]) == "return _getitem(self, where, self.__class__._IS_MOMENTUM)",
-           f"body is `{unparse(gi.body[-1]) if gi is not None else None}`", None, "src/vector/backends/numpy.py")
+    ctx.ob("C14.numpy-item", "GetItem.__getitem__", return_text(gi) in ("return _getitem(self, where, self.__class__._IS_MOMENTUM)", "return _getitem(self, where, type(self)._IS_MOMENTUM)"),
+           f"body is `{return_text(gi)}`", None, "src/vector/backends/numpy.py")
 
     # ---- (4) finalize renaming ----------------------------------------------------------------------
     base_sets = {2: [("x", "y"), ("rho", "phi")], 3: [("x", "y", "z"), ("rho", "phi", "eta")], 4: [("x", "y", "z", "t"), ("rho", "phi", "theta", "tau")]}
@@ -256,7 +256,7 @@ def run(ctx):
             cname = f"{flavor}Awkward{dim}D"
             for grp, cap in (("azimuthal", "Azimuthal"), ("longitudinal", "Longitudinal"), ("temporal", "Temporal"))[: dim - 1]:
                 fn = af.method(cname, grp)
-                body = unparse(fn.body[-1]) if fn is not None else None
+                body = return_text(fn)
                 ctx.ob("C14.awkward-fields", f"{cname}.{grp}", body == f"return {cap}Awkward.{meth}(self)", f"body is `{body}`", None, "src/vector/backends/awkward.py")
     ctx.decline("attribute lookup of ndarray / ak.Array subclasses outside the MRO computed from the class statements")
     ctx.decline("to_pxpy... conversions: decided under C04")
